@@ -11,6 +11,8 @@ import (
 	"strings"
 	"time"
 
+	"gorm.io/gorm"
+
 	"verif/core"
 )
 
@@ -396,7 +398,13 @@ type item struct {
 	d *dup
 	g *group
 	r *relation
+	s bool // the soft-delete field `DeletedAt gorm.DeletedAt` (column deleted_at) of a soft model
 }
+
+var tDeletedAt = reflect.TypeOf(gorm.DeletedAt{})
+
+// softCol: the column of the soft-delete field of a soft model.
+const softCol = "deleted_at"
 
 // dup is a SECOND Go field (same Go name) mapped to the column of field main, on a path of a
 // different length (two fields on paths of equal length sharing a column are not generated):
@@ -508,6 +516,10 @@ type model struct {
 	dups     []*dup
 	zeroGrid bool        // composite key whose parts may legally be zero: some seeded rows have one zero key part
 	rels     []*relation // association fields (top level) to the static types of assoc.go
+	// soft: the model type has a top-level field `DeletedAt gorm.DeletedAt` (column deleted_at). It is
+	// not one of m.fields: no operation ever hands a non-zero value over for it; the rows are seeded
+	// with deleted_at NULL except the rows an update operation declares soft-deleted (op.dead)
+	soft bool
 }
 
 type nameCol struct{ name, col string }
@@ -675,6 +687,15 @@ func genModel(r *core.Rand, table string) *model {
 		m.top = append(m.top, nil)
 		copy(m.top[at+1:], m.top[at:])
 		m.top[at] = &item{r: rl}
+	}
+	// soft-delete models: one model in three (drawn from a forked stream: the other draws of the
+	// case do not move)
+	if sr := r.Fork(); sr.Chance(1, 3) {
+		m.soft = true
+		at := sr.Range(npk, len(m.top))
+		m.top = append(m.top, nil)
+		copy(m.top[at+1:], m.top[at:])
+		m.top[at] = &item{s: true}
 	}
 	m.typ = reflect.StructOf(m.build(m.top, nil))
 	// rows: 3..6 distinct keys out of 1..9, every cell a unique sentinel
@@ -959,6 +980,8 @@ func (m *model) build(items []*item, path []int) []reflect.StructField {
 	for i, it := range items {
 		p := append(append([]int(nil), path...), i)
 		switch {
+		case it.s:
+			sf = append(sf, reflect.StructField{Name: "DeletedAt", Type: tDeletedAt})
 		case it.r != nil:
 			it.r.index = i
 			sf = append(sf, reflect.StructField{Name: it.r.name, Type: it.r.goType(), Tag: gtag(it.r.tag)})
@@ -1009,6 +1032,8 @@ func (m *model) declItems(items []*item, indent string) []string {
 	var out []string
 	for _, it := range items {
 		switch {
+		case it.s:
+			out = append(out, indent+"DeletedAt gorm.DeletedAt")
 		case it.r != nil:
 			out = append(out, indent+it.r.decl())
 		case it.f != nil:
@@ -1095,6 +1120,9 @@ func (m *model) createSQL() string {
 		}
 		cols = append(cols, c)
 	}
+	if m.soft {
+		cols = append(cols, "`"+softCol+"` DATETIME")
+	}
 	if m.composite() {
 		cols = append(cols, "PRIMARY KEY (`k1`, `k2`)")
 	}
@@ -1167,6 +1195,8 @@ func (m *model) litItems(items []*item, vals map[int]lval, dvals map[int]lval, k
 	var parts []string
 	for _, it := range items {
 		switch {
+		case it.s:
+			// always the zero value
 		case it.r != nil:
 			if ks := kids[it.r.name]; len(ks) > 0 {
 				parts = append(parts, it.r.name+": "+relationLit(it.r, ks))
